@@ -217,14 +217,19 @@ func quotedQualifierParser(prefix string) pars.Parser {
 		}
 		state.Drop()
 		pars.EOL(state, pars.Void)
+		// Take the continuation indent out of the value in one pass over the
+		// token: token[:w] is the value so far, and an indent is cut off as
+		// soon as its last byte has been moved behind a line feed.
 		token := result.Token
-		i := bytes.Index(token, p)
-		for i >= 0 {
-			n := copy(token[i+1:], token[i+len(p):])
-			token = token[:i+1+n]
-			i = bytes.Index(token, p)
+		w := 0
+		for r := 0; r < len(token); r++ {
+			token[w] = token[r]
+			w++
+			if bytes.HasSuffix(token[:w], p) {
+				w -= len(prefix)
+			}
 		}
-		result.SetToken(token)
+		result.SetToken(token[:w])
 		return nil
 	}
 }
